@@ -1106,8 +1106,13 @@ func main() {
 		watchOrderChild(os.Args[2])
 		return
 	}
+	if len(os.Args) > 4 && os.Args[1] == "tornchild" {
+		tornChild(os.Args[2], os.Args[3], os.Args[4])
+		return
+	}
 	run = vlib.Start("C16", "model_checking")
 	watchOrder()
+	tornWrites()
 	renders := sameBytes()
 	states, transitions, cands := edits(run.Thorough())
 	confirm(cands)
